@@ -399,3 +399,54 @@ TEMPERATURE_OFFSETS = {
     "°R": Fr(0), "degR": Fr(0), "R": Fr(0),
     "°F": F("459.67") * F(5, 9), "degF": F("459.67") * F(5, 9), "F": F("459.67") * F(5, 9),
 }
+
+
+def self_check():
+    """Redundant definitions that must agree (guards the oracle itself against typos). Returns a list of failures."""
+    bad = []
+
+    def eq(a, b, what):
+        ra, rb = parse(a), parse(b)
+        if not any(x.key() == y.key() for x in ra for y in rb):
+            bad.append("%s: %s = %s but %s = %s" % (what, a, ra[0], b, rb[0]))
+
+    def val(a, q, what):
+        r = parse(a)
+        if not any(x.q == Fr(q) for x in r):
+            bad.append("%s: %s = %s, expected %s" % (what, a, r[0].q, q))
+    val("mi", Fr(5280) * Fr("0.3048"), "mile = 5280 ft")
+    val("yd", Fr(3) * Fr("0.3048"), "yard = 3 ft")
+    val("in", Fr("0.3048") / 12, "inch = ft/12")
+    val("ac", Fr(43560) * Fr("0.3048") ** 2, "acre = 43560 ft^2")
+    eq("kn", "nmi/hr", "knot")
+    eq("psi", "lbf/in^2", "psi")
+    eq("psf", "lbf/ft^2", "psf")
+    eq("slug", "lbf·s^2/ft", "slug")
+    eq("slinch", "lbf·s^2/in", "slinch")
+    val("slinch", 12 * parse("slug")[0].q, "slinch = 12 slug")
+    eq("W", "J/s", "watt")
+    eq("J", "N·m", "joule")
+    eq("Pa", "N/m^2", "pascal")
+    eq("N", "kg·m/s^2", "newton")
+    eq("Hz", "/s", "hertz")
+    eq("C", "A·s", "coulomb")
+    eq("L", "dm^3", "litre")
+    val("ha", 10000, "hectare = 100 m x 100 m")
+    eq("P", "g/cm/s", "poise = g/(cm s)")
+    eq("dyn", "g·cm/s^2", "dyne")
+    val("kiB", 8 * 1024, "kiB = 8192 bit")
+    val("MiB", 8 * 1024 ** 2, "MiB")
+    val("kB", 8000, "kB = 8000 bit")
+    val("BTU", Fr("1055.05585262"), "BTU_IT = 1055.05585262 J")
+    val("eV", Fr("1.602176634e-19"), "eV")
+    val("rev", 2, "revolution = 2 pi")   # coefficient of pi
+    if parse("arcmin")[0].q * 60 != parse("deg")[0].q:
+        bad.append("arcminute is not deg/60")
+    if parse("arcsec")[0].q * 60 != parse("arcmin")[0].q:
+        bad.append("arcsecond is not arcmin/60")
+    if parse("°R")[0].q * 9 != 5 or parse("°F")[0].q * 9 != 5:
+        bad.append("Rankine/Fahrenheit degree is not 5/9 K")
+    # 32 degF = 0 degC, 212 degF = 100 degC
+    if (32 + Fr("459.67")) * Fr(5, 9) != Fr("273.15") or (212 + Fr("459.67")) * Fr(5, 9) != Fr("373.15"):
+        bad.append("Fahrenheit / Celsius fixed points disagree")
+    return bad
